@@ -1320,4 +1320,65 @@ theorem C19_delegates_are_entity_members (mb : Member) (hmb : mb ∈ members) (f
 example : stampersOf .m_values = [.Property] ∧ stampersOf .m_label = [.DataArray, .DimensionLink] ∧
     stampersOf .m_position = [.Tag] := by decide +kernel
 
+/-! ## calls that hand work to another object: the two-step reading is the model
+
+The harness runs `dim.label = v` on a linked dimension as a call "on behalf of" the linked data object
+(via `DimensionLink`), and `section[name] = v` as `property.values = v`.  `callDelegating` is the call as
+the program makes it; it is admitted only through a name in the generated `foreign` list of the outer
+member, and then it IS the history "inner call, outer call" - so every theorem about histories above
+speaks about it. -/
+
+theorem C19_delegating_is_two_calls (s : State) (e : Nat) (via : Option Cls) (m : Mem) (o : Outcome)
+    (d : Nat) (dvia : Option Cls) (f : Mem) (fo : Outcome)
+    (h : (callDelegating s e via m o d dvia f fo).2 ≠ .bad) :
+    (callDelegating s e via m o d dvia f fo).1 = run s [.call d dvia f fo, .call e via m o] ∧
+    ∃ ent mb, aliveAt s e = some ent ∧ resolve (via.getD ent.kind.cls) m = some mb ∧ f ∈ mb.foreign := by
+  cases hal : aliveAt s e with
+  | none => simp [callDelegating, hal] at h
+  | some ent =>
+    cases hres : resolve (via.getD ent.kind.cls) m with
+    | none => simp [callDelegating, hal, hres] at h
+    | some mb =>
+      by_cases hin : mb.foreign.contains f = true
+      · have hf : f ∈ mb.foreign := List.contains_iff_mem.mp hin
+        cases hr : (step s (.call d dvia f fo)).2 with
+        | bad => simp [callDelegating, hal, hres, hin, hr] at h
+        | done => exact ⟨by simp [callDelegating, hal, hres, hf, hr, run], ent, mb, rfl, hres, hf⟩
+        | refused => exact ⟨by simp [callDelegating, hal, hres, hf, hr, run], ent, mb, rfl, hres, hf⟩
+        | err er => exact ⟨by simp [callDelegating, hal, hres, hf, hr, run], ent, mb, rfl, hres, hf⟩
+      · have hnf : f ∉ mb.foreign := fun hm => hin (List.contains_iff_mem.mpr hm)
+        simp [callDelegating, hal, hres, hnf] at h
+
+/-- a member whose body invokes no stamping member of another object admits no nested call -/
+theorem C19_no_delegation_without_foreign (s : State) (e : Nat) (ent : Ent) (via : Option Cls) (m : Mem)
+    (mb : Member) (o : Outcome) (d : Nat) (dvia : Option Cls) (f : Mem) (fo : Outcome)
+    (hal : aliveAt s e = some ent) (hres : resolve (via.getD ent.kind.cls) m = some mb)
+    (hno : mb.foreign = []) : callDelegating s e via m o d dvia f fo = (s, .bad) := by
+  simp [callDelegating, hal, hres, hno]
+
+/-- with the switch off a delegating call changes nothing either -/
+theorem C19_delegating_switch_off (s : State) (hoff : s.auto = false) (e : Nat) (via : Option Cls) (m : Mem)
+    (o : Outcome) (d : Nat) (dvia : Option Cls) (f : Mem) (fo : Outcome) :
+    (callDelegating s e via m o d dvia f fo).1 = s := by
+  have h1 := C19_switch_off_call_unchanged s hoff d dvia f fo
+  have h2 := C19_switch_off_call_unchanged s hoff e via m o
+  cases hal : aliveAt s e with
+  | none => simp [callDelegating, hal]
+  | some ent =>
+    cases hres : resolve (via.getD ent.kind.cls) m with
+    | none => simp [callDelegating, hal, hres]
+    | some mb =>
+      by_cases hin : mb.foreign.contains f = true
+      · have hf : f ∈ mb.foreign := List.contains_iff_mem.mp hin
+        cases hr : (step s (.call d dvia f fo)).2 <;> simp [callDelegating, hal, hres, hf, hr, h1, h2]
+      · have hnf : f ∉ mb.foreign := fun hm => hin (List.contains_iff_mem.mpr hm)
+        simp [callDelegating, hal, hres, hnf]
+
+/-- `section[name] = v` for a name in use, switch on: the property is stamped, the section is not -/
+example : ∃ s, State.open 1000 true = .ok s ∧
+    (let s1 := run s [.create .section 0 .good, .create .property 1 .good, .setClock 2000]
+     ((callDelegating s1 1 none .m___setitem__ ⟨.returns, .none⟩ 2 none .m_values ⟨.returns, .self⟩).1.ents.map
+        fun e => readStamp e.updated)) = [.ok (some 1000), .ok (some 1000), .ok (some 2000)] :=
+  ⟨_, rfl, by decide +kernel⟩
+
 end Nix.C19
